@@ -843,6 +843,7 @@ where
                         | TsType::TsUnionOrIntersectionType(
                             TsUnionOrIntersectionType::TsUnionType(..),
                         )
+                        | TsType::TsParenthesizedType(..)
                         | TsType::TsTypeRef(..) => {
                             let keys = self.resolve_string_or_union_strings(index);
                             interface
@@ -1001,6 +1002,7 @@ where
                         ..
                     })
                     | TsType::TsTypeRef(..)
+                    | TsType::TsParenthesizedType(..)
                     | TsType::TsUnionOrIntersectionType(TsUnionOrIntersectionType::TsUnionType(
                         ..,
                     )) => {
